@@ -126,7 +126,7 @@ def nontransitive_triples():
     transitive (CNOT(c->q) with X(q) and RX(q); CNOT(q->t) with Z(q) and RZ(q)), so "commutes with one member of the
     qubit's current cycle" does not imply "commutes with all", and the dependency A -> B must still be recorded.  Computed
     from the documented rule (cached per tree variant), as name/targets/controls triples."""
-    key = (len_bound(), self_commuting_names())
+    key = (repr(tree_guards()), self_commuting_names())
     if key not in _NONTRANS:
         pool = [g for g in placements(2) if len(g[1]) + len(g[2]) <= 2]
         spec = [[g[0], g[1], g[2], None] for g in pool]
@@ -221,6 +221,8 @@ def placements(N, names=None):
         if (names is None or name in names) and N >= 3:
             for ts in itertools.permutations(range(N), 3):
                 out.append((name, list(ts), []))
+                if name == "TOFFOLI":          # TOFFOLI(controls=[c1], targets=[c2, t]): also accepted by the class
+                    out.append((name, list(ts[1:]), [ts[0]]))
     return out
 
 
@@ -380,11 +382,49 @@ def sc_flag(name):
     return 1 if (w is None or name in w) else 0
 
 
-def len_bound():
-    """`k` when the same-name part of the tree's commutation_rules refuses gates with more than k targets (the repair of
-    the targets-only three-qubit gates, fixes/C05-2.patch), else None -- read with `ast` (py/translate/sched.py)"""
+def tree_guards():
+    """the guards `if …: return False` of the same-name part of the tree's commutation_rules, read with `ast`
+    (py/translate/sched.py same_name_guards): [{"kind": "set"}, {"kind": "len", "k"} | {"kind": "lensym", "k", "names"}]"""
     from translate import sched
-    return sched.info().get("len_bound")
+    return sched.info().get("guards") or []
+
+
+def flag_ok(spec):
+    """the tree's rule can declare this gate commuting with a gate of its own name at all (= `Gen.SchedRule.flagged`)"""
+    if not sc_flag(spec[0]):
+        return False
+    for g in tree_guards():
+        if g["kind"] == "len" and len(spec[1]) > g["k"]:
+            return False
+        if g["kind"] == "lensym" and len(spec[1]) > g["k"] and spec[0] not in g["names"]:
+            return False
+    return True
+
+
+def tree_unrepaired():
+    """the tree lacks one of the repairs of the commutation rule (no _SELF_COMMUTING_GATES, or no guard on gates given by
+    several non-interchangeable targets: fixes/C05-1, C05-2, C05-4): the recorded classes are then skipped by the oracles"""
+    return self_commuting_names() is None or not any(g["kind"] == "lensym" for g in tree_guards())
+
+
+def alias_ok():
+    """`InstructionsGraph.__init__` of the tree copies every listed instruction separately (fixes/C11-2.patch); without it the
+    same Instruction object listed twice becomes ONE node listed twice (shared predecessor sets / distances): TypeError"""
+    from translate import sched
+    return bool(sched.info().get("alias_ok"))
+
+
+def aliased_instructions(specs, durs, den, mk=None):
+    """Instruction list in which equal (spec, duration) entries are THE SAME Instruction object (`[inst] * k`, `[a, b, a]`)"""
+    _, Instruction, _, _, _ = _mods()
+    mk = mk or make_gate
+    seen, out = {}, []
+    for sp, d in zip(specs, durs):
+        key = repr((sp, d))
+        if key not in seen:
+            seen[key] = Instruction(mk(sp), duration=d / den)
+        out.append(seen[key])
+    return out
 
 
 def repeat_cycles_ok():
@@ -610,7 +650,10 @@ def run_call(scheduler, call, method, perm, gate_of=None, store=None, log=None):
             raise AssertionError("harness: the edited object does not have the recorded content")
     elif pulse:
         try:
-            obj = [Instruction(mk(s), duration=d / call["den"]) for s, d in zip(specs, call["durs"])]
+            if call.get("alias"):
+                obj = aliased_instructions(specs, call["durs"], call["den"], mk)
+            else:
+                obj = [Instruction(mk(s), duration=d / call["den"]) for s, d in zip(specs, call["durs"])]
         except Exception as e:
             return "other:" + type(e).__name__, None
     elif not specs:
@@ -630,7 +673,7 @@ def run_call(scheduler, call, method, perm, gate_of=None, store=None, log=None):
 
 # cross-object histories: several Scheduler objects in one process.  A witness {"steps": [...]} is a list of
 #   {"op": "new", "id": k, "method", "perm", "cons"}         create scheduler k (cons None = the constructor's default)
-#   {"op": "mutate", "id": k, "what": "clear" | "append_a" | "pop" | "method:<m>" | "perm:<0|1>"}
+#   {"op": "mutate", "id": k, "what": "clear" | "append_a" | "pop" | "method:<m>" | "perm:<0|1>" | ["assign", cons]}
 #                                                            edit a PUBLIC attribute of scheduler k in place
 #   {"op": "call", "id": k, "call": <history call>}          schedule() on scheduler k
 # Contract: a freshly constructed Scheduler behaves like one in a fresh process, whatever was done to earlier objects; a
@@ -650,6 +693,9 @@ def apply_mutation(sch, eff, what):
             sch.constraint_functions.pop()
         cur = ["q"] if eff["cons"] is None else list(eff["cons"])
         eff["cons"] = cur[:-1]
+    elif isinstance(what, list) and what[0] == "assign":      # constraint_functions re-assigned to a new list
+        sch.constraint_functions = make_constraints(what[1]) if what[1] is not None else [S.qubit_constraint]
+        eff["cons"] = what[1]
     elif what.startswith("method:"):
         sch.method = what[7:]
         eff["method"] = what[7:]
@@ -690,12 +736,16 @@ def cross_object_steps(rng, make_call, cons_choices=(None, None, None, ["q"], ["
     """random cross-object history: scheduler 0 is used, then one of its public attributes is edited in place, then a NEW
     scheduler (mostly default-constructed) is created and used; sometimes scheduler 0 is used again afterwards"""
     m0, m1 = rng.choice(["ASAP", "ALAP"]), rng.choice(["ASAP", "ALAP"])
-    steps = [{"op": "new", "id": 0, "method": m0, "perm": True, "cons": rng.choice(cons_choices)}]
+    steps = [{"op": "new", "id": 0, "method": m0, "perm": rng.random() < 0.6, "cons": rng.choice(cons_choices)}]
     if rng.random() < 0.7:
         steps.append({"op": "call", "id": 0, "call": make_call()})
     for _ in range(rng.randint(1, 2)):
-        steps.append({"op": "mutate", "id": 0, "what": rng.choice(["clear", "clear", "append_a", "pop", "method:ALAP", "perm:0"])})
-    steps.append({"op": "new", "id": 1, "method": m1, "perm": True, "cons": rng.choice(cons_choices)})
+        steps.append({"op": "mutate", "id": 0, "what": rng.choice(
+            ["clear", "clear", "append_a", "pop", "method:ALAP", "method:ASAP", "perm:0", "perm:1", "perm:1",
+             ["assign", ["q"]], ["assign", ["a", "q"]], ["assign", None]])})
+    if rng.random() < 0.6:          # attribute-edit history on ONE object: the edited scheduler itself is used again
+        steps.append({"op": "call", "id": 0, "call": make_call()})
+    steps.append({"op": "new", "id": 1, "method": m1, "perm": rng.random() < 0.7, "cons": rng.choice(cons_choices)})
     steps.append({"op": "call", "id": 1, "call": make_call()})
     if rng.random() < 0.5:
         steps.append({"op": "call", "id": 0, "call": make_call()})
@@ -767,16 +817,17 @@ def known_class_pair(specs, N):
     Returns the first such pair (i, j) or None.  On a tree that carries the repair (`_SELF_COMMUTING_GATES`
     exists) nothing is excluded: a declared-commuting pair that does not commute is then a violation."""
     if self_commuting_names() is not None:
-        if len_bound() is not None:
+        if not tree_unrepaired():
             return None
-        # tree without the guard on gates given by many targets: the class of the second finding -- two same-name gates of the
-        # set WITHOUT controls and with more than two targets whose sorted target lists coincide but which do not commute
-        # (TOFFOLI([0,1,2]) / TOFFOLI([0,2,1])); the rule sees equal targets because Instruction sorts the list
+        # tree without the guard on gates given by several non-interchangeable targets: the class of the findings repaired by
+        # fixes/C05-2 / C05-4 -- two same-name gates of the set, one of them with more than one target, which the rule of THIS
+        # tree declares commuting (equal sorted targets or equal controls: Instruction has sorted the list that encodes the
+        # roles of the qubits) but which do not commute: TOFFOLI([0,1,2]) / TOFFOLI([0,2,1]),
+        # TOFFOLI(controls=[0], targets=[1,2]) / TOFFOLI(controls=[0], targets=[2,1])
         for i in range(len(specs)):
             for j in range(i + 1, len(specs)):
                 a, b = specs[i], specs[j]
-                if a[0] == b[0] and sc_flag(a[0]) and not a[2] and not b[2] and len(a[1]) > 2 \
-                        and sorted(a[1]) == sorted(b[1]):
+                if a[0] == b[0] and (len(a[1]) > 1 or len(b[1]) > 1) and used_of(a) & used_of(b) and documented_rule(a, b):
                     A, B = gate_matrix(a, N), gate_matrix(b, N)
                     if np.abs(A @ B - B @ A).max() > 1e-9:
                         return (i, j)
@@ -818,7 +869,4 @@ def documented_rule(a, b):
         if x == "CNOT" and y in ("Z", "RZ"):
             return cx == ty
         return False
-    lb = len_bound()
-    if lb is not None and (len(ta) > lb or len(tb) > lb):
-        return False
-    return bool(sc_flag(na)) and (bool(ca and ca == cb) or ta == tb)
+    return bool(flag_ok(a) and flag_ok(b)) and (bool(ca and ca == cb) or ta == tb)
